@@ -166,3 +166,168 @@ def rule_total(ctx: Ctx, rep: Report, gates: list[ClassInfo],
             key='partial-calc-params',
         )
     rep.floor(R, n, floor, 'GeneralGate subclasses inheriting optimize')
+
+
+# ---------------------------------------------------------------------------
+# NANDOM / DEGEN: inverse trigonometry on matrix-derived values
+# ---------------------------------------------------------------------------
+
+NAN_DOC = """NANDOM  `np.arccos(x)` / `np.arcsin(x)` return NaN for |x| > 1.  A value that
+        is a modulus or a real part taken from a unitary is <= 1 only in exact
+        arithmetic; after normalisation it can be 1.0000000000000002.  Accepted
+        spellings: the argument is clipped (`np.clip`, `min`/`max`), or it is the
+        normalised ratio `a / np.sqrt(a**2 + b**2)` (<= 1 in IEEE arithmetic as
+        well), or a constant.
+
+DEGEN   In a `calc_params` (the inverse of a parametrisation) a division by
+        `np.cos(t)` / `np.sin(t)` of an angle `t` recovered earlier in the same
+        function is a division by zero for the unitaries at which that angle
+        is a multiple of pi/2 - permutation-like and diagonal matrices, the
+        identity among them - unless a test of the denominator guards it.
+"""
+
+_POSITIVE = '''
+def f(u):
+    x = np.abs(u[0, 0])
+    return 2 * np.arccos(x)
+'''
+
+
+def _is_ratio(e: ast.AST) -> bool:
+    """a / np.sqrt(a ** 2 + b ** 2 [+ ...]) with `a` among the squares."""
+    if not (isinstance(e, ast.BinOp) and isinstance(e.op, ast.Div)):
+        return False
+    den = e.right
+    if not (isinstance(den, ast.Call) and norm(den.func).endswith('sqrt')
+            and len(den.args) == 1):
+        return False
+    terms = []
+    todo = [den.args[0]]
+    while todo:
+        t = todo.pop()
+        if isinstance(t, ast.BinOp) and isinstance(t.op, ast.Add):
+            todo += [t.left, t.right]
+        else:
+            terms.append(t)
+    sq = set()
+    for t in terms:
+        if isinstance(t, ast.BinOp) and isinstance(t.op, ast.Pow) and (
+                isinstance(t.right, ast.Constant) and t.right.value == 2):
+            sq.add(norm(t.left))
+        elif isinstance(t, ast.BinOp) and isinstance(t.op, ast.Mult) and (
+                norm(t.left) == norm(t.right)):
+            sq.add(norm(t.left))
+        else:
+            return False
+    return norm(e.left) in sq
+
+
+def _nan_sites(fn_node: ast.AST, subst) -> list[tuple[ast.Call, str]]:
+    out = []
+    for c in ast.walk(fn_node):
+        if not (isinstance(c, ast.Call) and len(c.args) == 1):
+            continue
+        fn = norm(c.func)
+        if fn.rsplit('.', 1)[-1] not in ('arccos', 'arcsin', 'acos', 'asin'):
+            continue
+        a = subst(c.args[0])
+        if isinstance(a, ast.Constant):
+            continue
+        if isinstance(a, ast.Call) and norm(a.func).rsplit('.', 1)[-1] in (
+                'clip', 'min', 'max', 'minimum', 'maximum'):
+            continue
+        if _is_ratio(a):
+            continue
+        out.append((c, norm(c)))
+    return out
+
+
+def rule_nandom(ctx: Ctx, rep: Report, prefixes: tuple[str, ...],
+                floor: int) -> None:
+    R = 'NANDOM'
+    # the matcher is exercised on a built-in positive example on every run
+    pos = ast.parse(_POSITIVE).body[0]
+    if len(_nan_sites(pos, lambda e: e)) != 1:
+        from ..source import AnalysisError
+        raise AnalysisError('NANDOM no longer matches its positive example')
+    n = 0
+    for f in ctx.index.all_functions():
+        if not f.path.startswith(prefixes):
+            continue
+        calls = [c for c in ast.walk(f.node) if isinstance(c, ast.Call)
+                 and norm(c.func).rsplit('.', 1)[-1] in (
+                     'arccos', 'arcsin', 'acos', 'asin')]
+        if not calls:
+            continue
+        g = ctx.cfg(f)
+
+        def sub(e: ast.AST, f=f, g=g) -> ast.AST:
+            node = g.node_containing(e)
+            return valnum.subst(ctx, f, node, e) if node is not None else e
+        sites = {id(c) for c, _t in _nan_sites(f.node, sub)}
+        for c in calls:
+            n += 1
+            rep.count()
+            rep.seen(f.qualname)
+            rep.check(
+                id(c) not in sites, R,
+                (f.cls.name + '.' if f.cls is not None else '') + f.name,
+                f.path,
+                c.lineno,
+                f'`{norm(c)}`: the argument is clipped or a normalised ratio',
+                f'`{norm(c)}` in {f.qualname}: the argument is taken from a '
+                'matrix and bounded by 1 only in exact arithmetic; after '
+                'rounding it can be 1.0000000000000002 and the result NaN '
+                '(clip it, or use arctan2)',
+                key=norm(c),
+            )
+    rep.floor(R, n, floor, 'inverse sine / cosine calls')
+
+
+def rule_degen(ctx: Ctx, rep: Report, gates: list[ClassInfo],
+               floor: int) -> None:
+    R = 'DEGEN'
+    n = 0
+    for c in gates:
+        f = c.methods.get('calc_params')
+        if f is None:
+            continue
+        g = ctx.cfg(f)
+        tests = ' ; '.join(
+            norm(t.stmt.test) for t in g.nodes
+            if t.kind == 'test' and hasattr(t.stmt, 'test'))
+        seen_here = False
+        for node in g.nodes:
+            if node.kind != 'stmt':
+                continue
+            for d in node.walk():
+                if not (isinstance(d, ast.BinOp) and isinstance(
+                        d.op, ast.Div)):
+                    continue
+                trig = [
+                    k for k in ast.walk(d.right)
+                    if isinstance(k, ast.Call) and norm(k.func).rsplit(
+                        '.', 1)[-1] in ('cos', 'sin') and k.args
+                    and not isinstance(k.args[0], ast.Constant)
+                ]
+                if not trig:
+                    continue
+                seen_here = True
+                n += 1
+                rep.count()
+                guarded = any(norm(k) in tests or norm(k.args[0]) in tests
+                              for k in trig)
+                rep.check(
+                    guarded, R, f'{c.name}.calc_params', f.path, d.lineno,
+                    f'division by `{norm(d.right)}` is guarded by a test',
+                    f'{c.name}.calc_params divides by `{norm(d.right)}`, the '
+                    'cosine / sine of an angle it has just recovered, with '
+                    'no test of the denominator: for the unitaries at which '
+                    'that angle is a multiple of pi/2 (identity, diagonal '
+                    'and permutation-like matrices) the result is NaN or '
+                    'wrong parameters',
+                    key=norm(d.right),
+                )
+        if seen_here:
+            rep.seen(f.qualname)
+    rep.floor(R, n, floor, 'divisions by a sine / cosine in calc_params')
